@@ -355,6 +355,8 @@ class Evaluator:
         self.payload_facts = {}
         self.payload_flags = {}
         self.option_facts = {}
+        # alternatives of a phi that replaced a guarded selection (`c.then_some(v).unwrap_or(d)`): phi -> {alternative: facts}
+        self.alt_facts = {}
         self._pending = []
         self.bind_fn = None
 
@@ -702,7 +704,34 @@ class Evaluator:
                 and args[0][1] in ("bool::then", "bool::then_some"):
             # cond.then(|| v).unwrap_or(d): one of the two values
             v = args[0][2][1] if args[0][1] == "bool::then_some" else self.closure_ret(ctx, args[0][2][1], [])
-            return mk_phi([args[1], v])
+            res = mk_phi([args[1], v])
+            from guards import bool_facts
+            self.alt_facts.setdefault(res, {}).update({v: bool_facts(args[0][2][0], True), args[1]: bool_facts(args[0][2][0], False)})
+            return res
+        if model == "Option::map_or" and len(args) == 3:
+            # opt.map_or(d, f) over an Option whose alternatives are visible (`cond.then_some(v)`, Some{..} | None):
+            # d, or f of the payload
+            def alts(o):
+                if o[0] == "agg" and o[1].endswith("Option::None"):
+                    return []
+                if o[0] == "agg" and o[1].endswith("Option::Some"):
+                    return [o[2][0]]
+                if o[0] == "call" and o[1] == "bool::then_some" and len(o[2]) == 2:
+                    return [o[2][1]]
+                if o[0] == "call" and o[1] == "bool::then" and len(o[2]) == 2:
+                    return [self.closure_ret(ctx, o[2][1], [])]
+                if o[0] == "phi":
+                    out_ = []
+                    for x in o[1]:
+                        a_ = alts(x)
+                        if a_ is None:
+                            return None
+                        out_.extend(a_)
+                    return out_
+                return None
+            al = alts(args[0])
+            if al is not None:
+                return mk_phi([args[1]] + [self.closure_ret(ctx, args[2], [v]) for v in al])
         if model == "is_empty" and args:
             return ("call", "eq", (("call", "len", (args[0],)), ("int", 0)))
         if model == "range_is_empty" and args:
